@@ -368,3 +368,105 @@ let oracle (prop : string) (p : parsed) (observed : S.t) : string =
 let run (prop : string) (input : S.t) (observed : S.t) : S.t * string =
   let p = parse input in
   (run_model p, oracle prop p observed)
+
+(* ---- C07: envelope, locations under layouts, JSON text ---- *)
+let c07_sections (input : S.t) =
+  match input with
+  | S.L (S.A "exec" :: secs) ->
+    let layouts = List.map S.int (try find_section "layouts" secs with _ -> []) in
+    let garbled = (match (try find_section "garble" secs with _ -> []) with [g] -> S.int g > 0 | _ -> false) in
+    (layouts, garbled)
+  | _ -> failwith "c07: input"
+
+let c07_project (garbled : bool) (observed : S.t) : S.t =
+  if garbled then S.L [S.A "malformed"] else
+  match observed with
+  | S.L (S.A "layouts" :: lays) ->
+    S.L (S.A "layouts" :: List.map (function
+        | S.L (S.A "lay" :: style :: rs) ->
+          S.L (S.A "lay" :: style :: List.map (function
+              | S.L [S.A "r"; keys; dk; shape; S.L (S.A "errs" :: es); js] ->
+                let dk' = (match dk with S.A "map" -> S.A "map" | S.A "other" -> S.A "other" | _ -> S.A "nodata") in
+                let es' = List.map (function S.L (S.A "e" :: p :: l :: k :: _) -> S.L [S.A "e"; p; l; k] | x -> x) es in
+                S.L [S.A "r"; keys; dk'; shape; S.L (S.A "errs" :: es'); js]
+              | x -> x) rs)
+        | x -> x) lays)
+  | x -> x
+
+let run_c07 (input : S.t) (observed : S.t) : S.t * string =
+  let (layouts, garbled) = c07_sections input in
+  let p = parse input in
+  let same3 = S.L [S.A "json"; S.A "same"; S.A "same"; S.A "same"] in
+  let expected =
+    if garbled then S.L [S.A "malformed"] else
+    let outs = (match run_model p with S.L l -> List.filter (function S.L (S.A "printed" :: _) -> false | _ -> true) l | _ -> []) in
+    let one = List.map (function
+        | S.L [S.A "rejected"] -> S.L [S.A "r"; S.A "1"; S.A "nodata"; S.A "list"; S.A "rejected-errors"; same3]
+        | S.L [S.A "resp"; data; S.L errs; _] ->
+          let errs = List.map (function
+              | S.L [S.A "e"; S.L path; l; k] ->
+                S.L [S.A "e"; S.L (List.map (function S.L (S.A "fa" :: _) -> S.L [S.A "fa"] | x -> x) path); l; k]
+              | x -> x) errs in
+          let errs = sorted_sexps errs in
+          let dk = (match data with S.A "nodata" | S.A "null" -> "nodata" | _ -> "map") in
+          S.L [S.A "r"; S.A "1"; S.A dk; S.A (if errs = [] then "absent" else "list"); S.L (S.A "errs" :: errs); same3]
+        | x -> x) outs in
+    S.L (S.A "layouts" :: List.map (fun st -> S.L (S.A "lay" :: S.of_int st :: one)) layouts) in
+  (* what the model does not predict (the errors of a request refused before execution) is not compared *)
+  let fails = ref [] in
+  let add f = if not (List.mem f !fails) then fails := !fails @ [f] in
+  let per_layout = ref [] in
+  (match observed with
+   | S.L (S.A "layouts" :: lays) ->
+     List.iter (function
+         | S.L (S.A "lay" :: _ :: rs) ->
+           let sigs = List.map (function
+               | S.L [S.A "r"; keys; dk; shape; S.L (S.A "errs" :: es); S.L (S.A "json" :: js)] ->
+                 if S.to_string keys <> "1" then add "fails:response-has-other-keys-than-data-and-errors";
+                 (match shape with
+                  | S.A "absent" -> if (match dk with S.A "absent" -> true | _ -> false) then add "fails:response-has-neither-data-nor-errors"
+                  | S.A "list" -> ()
+                  | S.A "empty" -> add "fails:errors-list-is-empty"
+                  | _ -> add "fails:errors-is-not-a-list");
+                 if (match dk with S.A "other" -> true | _ -> false) then add "fails:data-is-neither-a-map-nor-null";
+                 List.iter (fun j -> if S.to_string j <> "same" then add ("fails:response-json-" ^ S.to_string j)) js;
+                 List.map (function
+                     | S.L [S.A "e"; path; _; kind; S.L (S.A "env" :: m :: pa :: lo :: _); tok] ->
+                       if S.to_string m <> "1" then add "fails:error-without-a-non-empty-message";
+                       if S.to_string pa <> "1" then add "fails:error-path-has-other-than-strings-and-non-negative-integers";
+                       if S.to_string lo <> "1" then add "fails:error-location-not-positive-or-outside-the-document";
+                       S.to_string (S.L [path; kind; tok])
+                     | x -> S.to_string x) es
+               | x -> add "fails:shape"; [S.to_string x]) rs in
+           per_layout := !per_layout @ [List.map (fun l -> List.sort compare l) sigs]
+         | _ -> add "fails:shape") lays
+   | S.L (S.A "panic" :: _) -> add "fails:request-panicked"
+   | _ -> add "fails:shape");
+  (* the same document in another layout: the same errors at the same tokens *)
+  (if not garbled then match !per_layout with
+      | first :: rest -> if List.exists (fun o -> o <> first) rest then add "fails:error-locations-or-messages-depend-on-the-layout"
+      | [] -> ());
+  (* refused before execution: no data entry or a null one *)
+  (if not garbled then match expected, observed with
+      | S.L (S.A "layouts" :: elays), S.L (S.A "layouts" :: olays) when List.length elays = List.length olays ->
+        List.iter2 (fun e o -> match e, o with
+            | S.L (S.A "lay" :: _ :: ers), S.L (S.A "lay" :: _ :: ors) when List.length ers = List.length ors ->
+              List.iter2 (fun er orr -> match er, orr with
+                  | S.L [S.A "r"; _; _; _; S.A "rejected-errors"; _], S.L [S.A "r"; _; S.A "map"; _; _; _] ->
+                    add "fails:refused-request-carries-data"
+                  | _ -> ()) ers ors
+            | _ -> ()) elays olays
+      | _ -> ());
+  (expected, match !fails with [] -> "holds" | f :: _ -> f)
+
+(* a refused request: only its shape is compared *)
+let c07_project_rejected (expected : S.t) (observed : S.t) : S.t =
+  match expected, observed with
+  | S.L (S.A "layouts" :: elays), S.L (S.A "layouts" :: olays) when List.length elays = List.length olays ->
+    S.L (S.A "layouts" :: List.map2 (fun e o -> match e, o with
+        | S.L (S.A "lay" :: _ :: ers), S.L (S.A "lay" :: st :: ors) when List.length ers = List.length ors ->
+          S.L (S.A "lay" :: st :: List.map2 (fun er orr -> match er, orr with
+              | S.L [S.A "r"; _; _; _; S.A "rejected-errors"; _], S.L [S.A "r"; k; dk; sh; _; js] -> S.L [S.A "r"; k; dk; sh; S.A "rejected-errors"; js]
+              | _, x -> x) ers ors)
+        | _, x -> x) elays olays)
+  | _, x -> x
